@@ -67,21 +67,52 @@ fn main() {
                 shard: args[5].parse().expect("shard"),
                 shards: args[6].parse().expect("shards"),
                 scale: args[7].parse().expect("scale"),
+                upto: None,
             };
             let mut rep = engine::Report::default();
-            match ctx.prop.as_str() {
-                "C11" => c11::run_shard(&ctx, &mut rep),
-                "C04" => c04::run_shard(&ctx, &mut rep),
-                "C12" => c12::run_shard(&ctx, &mut rep),
-                "C09" => c09::run_shard(&ctx, &mut rep),
-                "C08" => c08::run_shard(&ctx, &mut rep),
-                "C19" => c19::run_shard(&ctx, &mut rep),
-                _ => {
-                    eprintln!("unknown property");
-                    std::process::exit(2);
-                }
+            if !run_shard(&ctx, &mut rep) {
+                eprintln!("unknown property");
+                std::process::exit(2);
             }
             engine::write_shard_report(&ctx, &rep);
+        }
+        "replay-prefix" => {
+            simrun::install_quiet_panic_hook();
+            let path = args.get(2).cloned().unwrap_or_default();
+            let j = match engine::read_json(&path) {
+                Ok(j) => j,
+                Err(e) => {
+                    eprintln!("{}", e);
+                    std::process::exit(2);
+                }
+            };
+            let prop = j["property"].as_str().unwrap_or("").to_string();
+            let p = &j["prefix"];
+            let ctx = engine::ShardCtx {
+                prop: prop.clone(),
+                tier: engine::Tier::parse(p["tier"].as_str().unwrap_or("quick")).unwrap_or(engine::Tier::Quick),
+                seed: p["seed"].as_u64().unwrap_or(1),
+                shard: p["shard"].as_u64().unwrap_or(0) as usize,
+                shards: p["shards"].as_u64().unwrap_or(1) as usize,
+                scale: p["scale"].as_u64().unwrap_or(100) as usize,
+                upto: p["run"].as_u64(),
+            };
+            let want = j["class"].as_str().unwrap_or("").to_string();
+            let mut rep = engine::Report::default();
+            run_shard(&ctx, &mut rep);
+            let hit = rep.violations.iter().zip(rep.violation_runs.iter()).find(|(v, run)| v.class == want && Some(**run) == ctx.upto);
+            match hit {
+                Some((v, _)) => {
+                    println!("REPRODUCED property={} class={}", prop, v.class);
+                    println!("  {} [by re-running worker {}/{} of seed {} up to run {}]", v.summary, ctx.shard, ctx.shards, ctx.seed, ctx.upto.unwrap_or(0));
+                    println!("VIOLATION property={} replay={}", prop, path);
+                    std::process::exit(1);
+                }
+                None => {
+                    println!("NOT-REPRODUCED property={} (neither the scenario nor the worker's history up to run {} reproduces it)", prop, ctx.upto.unwrap_or(0));
+                    std::process::exit(0);
+                }
+            }
         }
         "replay" => {
             simrun::install_quiet_panic_hook();
@@ -103,6 +134,14 @@ fn main() {
                 "C19" => c19::replay(&j["scenario"]),
                 _ => Err(format!("unknown property {}", prop)),
             };
+            // second chance: the failure may depend on the earlier history of the worker process.
+            // That is replayed in a FRESH process (this one has already loaded and executed
+            // things, which such a failure would notice).
+            if let (Ok(None), true) = (&r, j["prefix"]["run"].is_u64()) {
+                let exe = std::env::current_exe().expect("exe");
+                let st = std::process::Command::new(exe).arg("replay-prefix").arg(&path).status();
+                std::process::exit(st.ok().and_then(|s| s.code()).unwrap_or(2));
+            }
             match r {
                 Ok(Some((class, detail))) => {
                     println!("REPRODUCED property={} class={}", prop, class);
@@ -230,6 +269,19 @@ fn selftest_determinism(tier: &str) -> i32 {
     } else {
         2
     }
+}
+
+fn run_shard(ctx: &engine::ShardCtx, rep: &mut engine::Report) -> bool {
+    match ctx.prop.as_str() {
+        "C11" => c11::run_shard(ctx, rep),
+        "C04" => c04::run_shard(ctx, rep),
+        "C12" => c12::run_shard(ctx, rep),
+        "C09" => c09::run_shard(ctx, rep),
+        "C08" => c08::run_shard(ctx, rep),
+        "C19" => c19::run_shard(ctx, rep),
+        _ => return false,
+    }
+    true
 }
 
 fn meta_of(prop: &str) -> Option<engine::CheckMeta> {
